@@ -498,3 +498,11 @@ Example C02_real_line_bound_computed :
   read_vtt_lim max_scan_token (vtt_bytes (a_vdoc 65536)) [] = Err EIO /\
   read_vtt_lim max_scan_token (vtt_bytes (a_vdoc 65536)) [max_scan_token; 0%nat] = Err EIO.
 Proof. exact vtt_real_line_bound_computed. Qed.
+(* ---- the model's literals are the constants of the Go source (Proofs/ConstTie.v, Gen/Consts.v regenerated from the
+   repository on every run by tools/genconsts): every WebVTT keyword, separator, tag and name the model spells out equals the
+   package-level constant, struct tag or bidirectional-map entry of the source, or occurs among the string literals of
+   the function the model transcribes.  A closed boolean computed by the kernel. ---- *)
+From Astisub Require Proofs.ConstTie.
+Theorem C02_constants_from_source : ConstTie.all ConstTie.VttTie.ties = true.
+Proof. exact ConstTie.VttTie.consts_from_source. Qed.
+Print Assumptions C02_constants_from_source.
